@@ -338,12 +338,40 @@ def run(ctx):
     ctx.nontrivial(None, r)
     ctx.extra('realtime_in_sysex_cases', r)
     n += r
+    from .. import coldstart
+    n += coldstart.phase(ctx, cold_jobs(), 'concatenation parses back', offset=7)
     ctx.count('cases', n)
     ctx.put_sample({'kind': 'rt', 'data': [1, 2, 3], 'inserts': [[2, 0xF8], [4, 0xFF]]})
 
 
+def cold_jobs():
+    """Cold start: the first parses of a fresh interpreter, made by two threads."""
+    from ..coldstart import msg_want
+    no = ('note_on', {'channel': 3, 'note': 60, 'velocity': 100})
+    pw = ('pitchwheel', {'channel': 15, 'pitch': -8192})
+    sx = ('sysex', {'data': (1, 2, 3)})
+    sp = ('songpos', {'pos': 300})
+    tr = ('tune_request', {})
+
+    def stream(*specs):
+        return {'fn': 'parse_all', 'arg': [b for t, a in specs for b in midi1.encode(t, a)],
+                'want': [msg_want(t, a) for t, a in specs]}
+    rt = {'fn': 'parse_all', 'arg': [0xF0, 1, 0xF8, 2, 0xFF, 3, 0xF7, 0x90, 1, 2],
+          'want': [msg_want('clock', {}), msg_want('reset', {}), msg_want(*sx),
+                   msg_want('note_on', {'channel': 0, 'note': 1, 'velocity': 2})]}
+    resync = {'fn': 'parse_all', 'arg': [0x40, 0x90, 5, 0xF4, 0xF0, 9] + midi1.encode(*pw) + midi1.encode(*tr),
+              'want': [msg_want(*pw), msg_want(*tr)]}
+    others = [stream(no, pw, sx), rt, resync, stream(sp, tr, no), stream(sx, sx)]
+    mods = ['mido.tokenizer', 'mido.parser', 'mido.messages.decode', 'mido.messages.checks', 'mido.messages.messages']
+    return [{'modules': mods, 'jobs': [first, others], 'k': 1} for first in ([stream(no, sx)], [rt], [resync, stream(tr)])]
+
+
 def replay(ctx, case):
     k = case['kind']
+    if k == 'cold':
+        from .. import coldstart
+        coldstart.replay(ctx, case, 'concatenation parses back')
+        return
     if k == 'pair':
         a = dict(case['attrs'])
         if 'data' in a:
